@@ -1,0 +1,13 @@
+//go:build verif
+// +build verif
+
+package backend
+
+// Hook for the out-of-tree verification harness of property C04 (build tag verif).  Add-only.
+
+// VerifC04SetConnNum sets the connection counter directly (huge values cannot be reached with IncConnNum loops).
+func (back *BfeBackend) VerifC04SetConnNum(n int) {
+	back.Lock()
+	back.connNum = n
+	back.Unlock()
+}
